@@ -1,6 +1,7 @@
 package main
 
 import (
+	"strconv"
 	"encoding/binary"
 	"encoding/hex"
 	"fmt"
@@ -87,26 +88,19 @@ func runProc(cfg, framesHex string) string {
 		before := len(res.got)
 		var err error
 		panicked, _ := hx.Recover(func() { err = p.ProcessPacketData(data, &gopacket.CaptureInfo{}) })
+		for i := range data { // the capture ring reuses its memory for the next frame
+			data[i] = 0xEE
+		}
 		switch {
 		case panicked:
 			outs = append(outs, "P")
 		case len(res.got) > before+1:
 			outs = append(outs, "MULTI")
 		case len(res.got) == before+1:
-			switch r := res.got[before].(type) {
-			case *tcp.ScanResult:
-				fl := r.Flags
-				if fl == "" {
-					fl = "-"
-				}
-				outs = append(outs, fmt.Sprintf("R:tcp:%s:%s:%d:%s", r.ScanType, ipHex(r.IP), r.Port, fl))
-			case *icmp.ScanResult:
-				outs = append(outs, fmt.Sprintf("R:icmp:%s:%s:%d:%d:%d", r.ScanType, ipHex(r.IP), r.TTL, r.ICMP.Type, r.ICMP.Code))
-			case *arp.ScanResult:
-				outs = append(outs, fmt.Sprintf("R:arp:%s:%s", ipHex(r.IP), macHex(r.MAC)))
-			default:
-				outs = append(outs, "R:?")
-			}
+			// rendered only after the WHOLE history has been processed (see below): a record is read by
+			// the logger later, when the processor has long moved on to other frames, so a record that
+			// aliases processor state or the capture buffer shows up as a field from another frame
+			outs = append(outs, fmt.Sprintf("@%d", before))
 			if err != nil {
 				outs[len(outs)-1] += "+E"
 			}
@@ -116,7 +110,34 @@ func runProc(cfg, framesHex string) string {
 			outs = append(outs, "N")
 		}
 	}
+	for i, o := range outs {
+		if !strings.HasPrefix(o, "@") {
+			continue
+		}
+		suffix := ""
+		if strings.HasSuffix(o, "+E") {
+			suffix, o = "+E", o[:len(o)-2]
+		}
+		idx, _ := strconv.Atoi(o[1:])
+		outs[i] = renderRecord(res.got[idx]) + suffix
+	}
 	return strings.Join(outs, "|")
+}
+
+func renderRecord(x scan.Result) string {
+	switch r := x.(type) {
+	case *tcp.ScanResult:
+		fl := r.Flags
+		if fl == "" {
+			fl = "-"
+		}
+		return fmt.Sprintf("R:tcp:%s:%s:%d:%s", r.ScanType, ipHex(r.IP), r.Port, fl)
+	case *icmp.ScanResult:
+		return fmt.Sprintf("R:icmp:%s:%s:%d:%d:%d", r.ScanType, ipHex(r.IP), r.TTL, r.ICMP.Type, r.ICMP.Code)
+	case *arp.ScanResult:
+		return fmt.Sprintf("R:arp:%s:%s", ipHex(r.IP), macHex(r.MAC))
+	}
+	return "R:?"
 }
 
 // ---------- frame construction ----------
